@@ -26,8 +26,7 @@ ASSUMPTIONS = ["Erfi is evaluated for |x| <= 26.71 (the property states 'all rea
                "call sequences: each result is compared bit for bit with the same call made by the harness executable in a fresh process (no earlier call of the function)",
                "Dawson_Integral / Erfi outside the stated |x| <= 30: for |x| >= 8.6e8 the node index n0 = 2*int(0.5|x|/H + 0.5) overflows int (UBSan: signed integer overflow) and "
                "Dawson_Integral(1e9) is NaN - outside the property's domain, not generated (audit item P12); the asymptotic 1/(2x) would be a two-line guard",
-               "Round with zero significant digits (outside the stated d = 1..7): on HEAD Round(x,0) = inf; tolerated while PENDING_ROUND0 (repair proposed: /tmp/fixprop-C17-2), "
-               "strict clause 'does not stop with a diagnostic' otherwise",
+               "Round with zero significant digits (outside the stated d = 1..7) must stop with a diagnostic (f9320d5; before, Round(x,0) = inf): strict clause, mirrored in the model (roundSigG)",
                "Floats_Equal: the decision is compared with the model unless the tolerance is within 2^-30 (relative) of the relative difference AND the double "
                "computation of |a-b|/max(|a|,|b|) is inexact (exact boundary cases tol == relative difference are compared: they separate <= from <); "
                "reflexivity and symmetry are unconditional for every tolerance >= 0"]
@@ -36,7 +35,7 @@ TRUSTED = ["mpmath (erfi, erfinv, sqrt, spherharm for the self-test of the refer
 LMAX = 12
 
 # Pending repair proposed to the integrator (True = the behaviour of /repo HEAD is tolerated; LP_ASSUME_FIXED=ROUND0 switches the strict clause on)
-PENDING_ROUND0 = True       # Round(x, 0) returns inf instead of stopping with a diagnostic (/tmp/fixprop-C17-2)
+PENDING_ROUND0 = False      # Round(x, 0) returns inf instead of stopping with a diagnostic (/tmp/fixprop-C17-2)
 
 
 def pending(item):
@@ -273,7 +272,8 @@ def generate(tier, seed, ctx):
         if abs(x) <= 26.71:
             R.append("c17.erfi " + hx(x))
     # Inv_Erf
-    ps = [0.0, 0.5, -0.5, 0.999, -0.999, 1 - 1e-6, 1 - 1e-9, 1 - 1e-12, -1 + 1e-12, 1.0, -1.0, 1.5, -2.0, 1 - 1e-17, 1e-300, 1e-5, -1e-5]
+    ps = [0.0, 0.5, -0.5, 0.999, -0.999, 1 - 1e-6, 1 - 1e-9, 1 - 1e-12, -1 + 1e-12, 1.0, -1.0, 1.5, -2.0, 1 - 1e-17, 1e-300, 1e-5, -1e-5,
+          math.nextafter(1.0, 2.0), math.nextafter(-1.0, -2.0), math.nextafter(1.0, 0.0), math.nextafter(-1.0, 0.0), -1.0000001]
     for _ in range(600 if thorough else 150):
         c = rng.random()
         ps.append(rng.uniform(-1, 1) if c < 0.5 else rng.choice([-1, 1]) * (1 - 10.0 ** rng.uniform(-12, -1)) if c < 0.9 else rng.uniform(-1e-3, 1e-3))
@@ -642,9 +642,14 @@ def compare(rq, impl, model, ctx):
     if op == "c17.inverf":
         p = fl(a[0])
         v = fl(ti[0])
-        if tm[0] == "ten":
-            if v != 10.0:
-                out.append(fail("corr", "Inv_Erf next to 1 does not return 10", repr(v)))
+        if tm[0] in ("ten", "minusten"):
+            want = 10.0 if tm[0] == "ten" else -10.0
+            if v != want:
+                out.append(fail("corr", "Inv_Erf next to +-1 does not return +-10", repr(v)))
+            return out
+        if 1 - abs(Fraction(p)) < Fraction(1, 10 ** 12):
+            # the accuracy clause is stated on (-1,1) up to 1 - 1e-12; closer to +-1 erf saturates in double (only the outcome is compared)
+            bump(ctx, "inverf beyond 1-1e-12 (outcome only)")
             return out
         ref = M.erfinv(M.mpf(p))
         err = abs(M.mpf(v) - ref)
